@@ -195,7 +195,8 @@ class Thermal(_Simu):
 
         # end cases ----------------------------------------------------
 
-        return self.Results_Reshape_values(values, nodeValues)
+        # every result of this simulation is stored at nodes
+        return self.Results_Reshape_values(values, nodeValues, onNodes=True)
 
     def Results_Iter_Summary(
         self,
